@@ -68,12 +68,16 @@ type hubOp struct {
 }
 
 type hubCase struct {
+	// ExpectAll: every publish is authorised and matches every subscriber, so a connection still open
+	// and unstalled at the end must have received every update published after it connected.
+	ExpectAll bool `json:"expect_all,omitempty"`
 	Cfg  hubCfg  `json:"cfg"`
 	Size uint64  `json:"size"`
 	Ops  []hubOp `json:"ops"`
 }
 
 type liveConn struct {
+	epoch  int
 	label  int
 	w      *fakeRW
 	cancel context.CancelFunc
@@ -91,6 +95,9 @@ type hubRun struct {
 	metrics *mercure.PrometheusMetrics
 	panics  []string
 	pmu     sync.Mutex
+	replayed map[int]bool // connections that asked for a replay (their expected count differs)
+	epoch   int  // restarts so far
+	stopped bool // the current hub has been stopped
 }
 
 func (hr *hubRun) recoverPanic(where string) {
@@ -337,7 +344,11 @@ func runHubCase(c *h.Ctx, r *h.Report, o *gen.Oracle, cs hubCase, uuidGen *count
 					req.Header.Set("Last-Event-ID", op.LeidH)
 				}
 				addTok(tok)
-				lc := &liveConn{label: op.Label, w: newRW(), cancel: cancel}
+				lc := &liveConn{label: op.Label, w: newRW(), cancel: cancel, epoch: hr.epoch}
+				if hr.replayed == nil {
+					hr.replayed = map[int]bool{}
+				}
+				hr.replayed[op.Label] = op.LeidH != "" || op.LeidQ != "" || op.LeidL != nil
 				lc.w.onWrite = nil
 				lc.w.gateFn = lc.gateFn
 				hr.conns = append(hr.conns, lc)
@@ -415,6 +426,7 @@ func runHubCase(c *h.Ctx, r *h.Report, o *gen.Oracle, cs hubCase, uuidGen *count
 				}
 				emit(h.Line("hub.failnext", h.Itoa(op.Label)), "ok")
 			case "close":
+				hr.stopped = true
 				hr.stop()
 				synctest.Wait()
 				emit("hub.close", "ok")
@@ -422,6 +434,8 @@ func runHubCase(c *h.Ctx, r *h.Report, o *gen.Oracle, cs hubCase, uuidGen *count
 				hr.stop()
 				synctest.Wait()
 				hr.open()
+				hr.epoch++
+				hr.stopped = false
 				emit("hub.restart", "ok")
 			case "api.list", "api.get":
 				path := hubURL + "/subscriptions"
@@ -566,6 +580,7 @@ func hubExtraTopics(cs hubCase) []string {
 				for i := 0; i < n+len(cs.Ops)*4+4; i++ {
 					sid := fmt.Sprintf("urn:uuid:00000000-0000-4000-8000-%012x", i)
 					out = append(out, "/.well-known/mercure/subscriptions/"+url.QueryEscape(t)+"/"+url.QueryEscape(sid))
+					out = append(out, "/.well-known/mercure/subscriptions/"+strings.ReplaceAll(url.QueryEscape(t), "+", "%20")+"/"+url.QueryEscape(sid))
 				}
 			}
 		}
